@@ -2,18 +2,39 @@
 (* binds GuideTree!Run (UPGMA) to the code: for runs with at most 8 sequences the pairwise distance matrix logged by the
    Dm hook (pair = 1, units of 1e-4) is fed to the specification's UPGMA and the clades are compared with the tasks of the
    Tree event.  Cases in which some join is decided by less than 4 units (float32 averaging could decide otherwise) are
-   skipped.  Diagnostic only (KVDIV). *)
-EXTENDS GuideTree, Json, IOUtils
+   skipped.  The matrix itself is re-derived too (sequence_distance.c d_estimation / calc_distance): entry (i, j), i < j in
+   canonical order, is the semi-global edit distance (Myers!SemiGlobal) of the j-th sequence as pattern in the i-th as text,
+   on the guide-tree alphabet (DNA codes, or the 13 classes for protein), plus min(10000, (len_i + len_j) div 2) / 10000.
+   Diagnostic only (KVDIV). *)
+EXTENDS GuideTree, Alphabet, Json, IOUtils
+M == INSTANCE Myers
 Trace == ndJsonDeserialize(IOEnv.TRACE)
-VARIABLES l, dm, viol
-vars == <<l, dm, viol>>
+VARIABLES l, dm, inp, ctx, viol
+vars == <<l, dm, inp, ctx, viol>>
 Ev == Trace[l]
 Is(e) == l <= Len(Trace) /\ Trace[l].e = e
-Init == l = 1 /\ dm = [k |-> "none"] /\ viol = {}
-TDm == /\ Is("Dm") /\ l' = l + 1 /\ viol' = {}
+Init == l = 1 /\ dm = [k |-> "none"] /\ inp = <<>> /\ ctx = [bio |-> -1, ranks |-> <<>>] /\ viol = {}
+TIn == /\ Is("Obj") /\ Ev.tag = "in" /\ l' = l + 1 /\ inp' = Ev.seqs /\ ctx' = [bio |-> -1, ranks |-> <<>>] /\ UNCHANGED dm /\ viol' = {}
+TRunBegin == /\ Is("RunBegin") /\ l' = l + 1 /\ ctx' = [ctx EXCEPT !.bio = Ev.biotype] /\ UNCHANGED <<dm, inp>> /\ viol' = {}
+TSorted == /\ Is("Sorted") /\ l' = l + 1 /\ ctx' = [ctx EXCEPT !.ranks = Ev.ranks] /\ UNCHANGED <<dm, inp>> /\ viol' = {}
+Abs(x) == IF x < 0 THEN -x ELSE x
+TDm == /\ Is("Dm") /\ l' = l + 1 /\ UNCHANGED <<inp, ctx>>
        /\ dm' = IF Ev.pair = 1 /\ "d" \in DOMAIN Ev /\ Ev.rows <= 8 /\ Ev.rows >= 2 THEN [k |-> "dm", n |-> Ev.rows, d |-> Ev.d] ELSE [k |-> "none"]
+       /\ IF Ev.pair = 1 /\ "d" \in DOMAIN Ev /\ Ev.rows <= 8 /\ Ev.rows >= 2 /\ Len(inp) = Ev.rows /\ Len(ctx.ranks) = Ev.rows /\ ctx.bio \in {0, 1}
+          THEN LET n == Ev.rows
+                   alpha == IF ctx.bio = 1 THEN A_DNA ELSE A_RED13
+                   sq(k) == LET raw == inp[ctx.ranks[k] + 1] IN [x \in 1..Len(raw) |-> Code(alpha, raw[x])]
+                   model(i, j) == 10000 * M!SemiGlobal(sq(i), M!Prefix(sq(j), 1024))
+                                  + (LET h == (Len(sq(i)) + Len(sq(j))) \div 2 IN IF h > 10000 THEN 10000 ELSE h)
+                   bad == {p \in {<<i, j>> \in (1..n) \X (1..n) : i < j} :
+                             Abs(Ev.d[(p[1] - 1) * n + p[2]] - model(p[1], p[2])) > (IF model(p[1], p[2]) > 2000000 THEN 1 ELSE 0)
+                             \/ Ev.d[(p[2] - 1) * n + p[1]] # Ev.d[(p[1] - 1) * n + p[2]]}
+               IN /\ viol' = IF bad # {} THEN {"GuideTree.distance-matrix-differs"} ELSE {}
+                  /\ PrintT(<<"KVDM", l, n>>)
+                  /\ IF bad # {} THEN PrintT(<<"KVDIV", l, "distances", viol'>>) /\ PrintT(<<"KVINFO", l, bad>>) ELSE TRUE
+          ELSE viol' = {}
 TTree ==
-    /\ Is("Tree") /\ l' = l + 1 /\ dm' = [k |-> "none"]
+    /\ Is("Tree") /\ l' = l + 1 /\ dm' = [k |-> "none"] /\ UNCHANGED <<inp, ctx>>
     /\ IF dm.k # "dm" \/ dm.n # Ev.n THEN viol' = {}
        ELSE LET n == dm.n
                 D0 == [p \in {<<i, j>> \in (1..n) \X (1..n) : i < j} |-> dm.d[(p[1] - 1) * n + p[2]]]
@@ -22,8 +43,9 @@ TTree ==
             IN IF n > 2 /\ MinGap(st) < 4 * 64 THEN PrintT(<<"KVSKIP", l, "upgma", "near-tie">>) /\ viol' = {}
                ELSE /\ viol' = IF Clades(n, D0, 10) # TaskClades(n, tasks) THEN {"GuideTree.upgma-clades-differ"} ELSE {}
                     /\ IF viol' # {} THEN PrintT(<<"KVDIV", l, "upgma", viol'>>) ELSE TRUE
-TOther == l <= Len(Trace) /\ Ev.e \notin {"Dm", "Tree"} /\ l' = l + 1 /\ UNCHANGED dm /\ viol' = {}
-Next == TDm \/ TTree \/ TOther
+TOther == /\ l <= Len(Trace) /\ Ev.e \notin {"Dm", "Tree", "RunBegin", "Sorted"} /\ ~(Ev.e = "Obj" /\ Ev.tag = "in")
+          /\ l' = l + 1 /\ UNCHANGED <<dm, inp, ctx>> /\ viol' = {}
+Next == TIn \/ TRunBegin \/ TSorted \/ TDm \/ TTree \/ TOther
 Spec == Init /\ [][Next]_vars
 Accepted == TLCGet("stats").diameter - 1 = Len(Trace)
 =============================================================================
